@@ -22,8 +22,12 @@ func Copy(source, dest string) error {
 		err = copyHook("copied", source, dest)
 	}
 	cerr := out.Close()
-	if err != nil {
-		return err
+	if err == nil {
+		err = cerr
 	}
-	return cerr
+	if err != nil {
+		/* Don't leave a partial file behind. */
+		os.Remove(dest)
+	}
+	return err
 }
